@@ -237,7 +237,8 @@ Fixpoint diff_loop (fuel : nat) (ea : omap) (lb : log) (stack : list hash) (seen
     | S f =>
       match oget ea h with
       | Some eA =>
-        if negb (ohas (l_entries lb) h) && N.eqb (e_logid eA) (l_id lb) then
+        (* an entry is only taken under its own hash *)
+        if negb (ohas (l_entries lb) h) && N.eqb (e_logid eA) (l_id lb) && N.eqb (e_hash eA) h then
           let res' := oset res h eA in
           let seen' := h :: seen in
           let '(stack'', seen'') := fold_left (diff_push lb) (e_next eA) (stack', seen') in
